@@ -676,6 +676,35 @@ def adjust(pid, rng, cfg):
     return cfg
 
 
+def documented_required(flag, spec):
+    """which parts of a linked adapter must be found (guide, 'Linked adapters'): with -a the anchored parts, with -g both;
+    ;required / ;optional on a part override that.  spec = [name=]PART1...PART2"""
+    body = spec.split("=", 1)[1] if "=" in spec.split(";")[0].split("...")[0] else spec
+    p1, p2 = body.split("...", 1)
+    def part(p, anchored):
+        fields = p.split(";")
+        req = True if flag == "-g" else anchored
+        for f in fields[1:]:
+            if f.strip() == "required":
+                req = True
+            elif f.strip() == "optional":
+                req = False
+        return req
+    return part(p1, p1.startswith("^")), part(p2, p2.split(";")[0].endswith("$"))
+
+
+def oracle_c09_linked_required(ent):
+    import cutadapt.adapters as A
+
+    for (flag, spec), obj in zip(ent["cfg"].adapters, ent["objs"]):
+        if "..." in spec and isinstance(obj, A.LinkedAdapter):
+            want = documented_required(flag, spec)
+            got = (bool(obj.front_required), bool(obj.back_required))
+            if want != got:
+                return "linked adapter %s %r: required parts are %r, the documented rule gives %r" % (flag, spec, got, want)
+    return None
+
+
 def no_index_possible(adapters):
     """at most one anchored 5' and at most one anchored 3' adapter (linked ones are never indexed): AdapterCutter cannot build an index"""
     pre = sum(1 for _, spec in adapters if "..." not in spec and spec.split("=", 1)[-1].startswith("^"))
@@ -717,6 +746,22 @@ def tie_case(rng):
         seq = head + U.rand_seq(rng, rng.choice([0, 2, 6]), "ACGT") + mid + U.rand_seq(rng, rng.choice([0, 2, 6]), "ACGT") + tail
         qual = None if cfg.fasta else "".join(chr(33 + rng.randint(2, 40)) for _ in seq)
         reads.append(("r%d" % i, seq, qual))
+    return cfg, reads
+
+
+def casava_nospace_case(rng):
+    """read names without a space (no CASAVA field at all) that nevertheless carry ':Y:' right behind their first character:
+    --discard-casava must leave them alone; other filters before and after it"""
+    cfg = S.Cfg(casava=True, adapters=(("-a", "ad0=" + U.rand_seq(rng, 8, "ACGT")),), fasta=rng.random() < 0.3)
+    if rng.random() < 0.6:
+        cfg.min_len, cfg.too_short_output = rng.choice([5, 10]), rng.random() < 0.5
+    if rng.random() < 0.5:
+        cfg.untrimmed_output = True
+    reads = []
+    for i in range(rng.choice([3, 6])):
+        seq = U.rand_seq(rng, rng.choice([4, 12, 30]), "ACGT") + (cfg.adapters[0][1][4:] if rng.random() < 0.5 else "")
+        name = rng.choice(["r:Y:%dx", "r:Y:%dx", "r%d 1:Y:0:ACGT", "r%d", "X:Y:%d:A"]) % i
+        reads.append((name, seq, None if cfg.fasta else "".join(chr(33 + rng.randint(2, 40)) for _ in seq)))
     return cfg, reads
 
 
@@ -765,6 +810,9 @@ def run(ctx, pid):
         if pid == "C09" and rng.random() < 0.1:
             cases.append(tie_case(rng))
             continue
+        if pid == "C11" and rng.random() < 0.04:
+            cases.append(casava_nospace_case(rng))
+            continue
         cfg, reads = S.rand_case(rng, FOCUS[pid])
         cases.append((adjust(pid, rng, cfg), reads))
     results = S.correspond(ctx, cases, "pipeline(model) vs cutadapt.cli.main", rng_argv=(rng if pid == "C10" else None))
@@ -788,12 +836,14 @@ def run(ctx, pid):
                 continue
             why = None
             try:
-                if pid == "C03":
+                if any(read_index(r[0]) is None for r in ent["reads"]):
+                    pass   # names outside the generator's r<idx> scheme: compared with the model only
+                elif pid == "C03":
                     why = oracle_c03(ent) or oracle_c03_actions(ent, d)
                 elif pid == "C04":
                     why = oracle_c04(ent, d)
                 elif pid == "C09":
-                    why = oracle_c09(ent)
+                    why = oracle_c09_linked_required(ent) or oracle_c09(ent)
                 elif pid == "C10":
                     why = oracle_c10(ent, d) if rng.random() < (0.5 if ctx.quick else 0.7) else None
                 elif pid == "C11":
@@ -815,11 +865,19 @@ def run(ctx, pid):
                     shown += 1
                     ctx.violation("correspondence:pipeline " + ent["diffs"][0].split(":")[0], dict(replay_doc(ent, "model and implementation differ"), diffs=ent["diffs"][:4]),
                                   found_input=False)
+    if pid in ("C16", "C20"):
+        multicore_part(ctx, pid, results, dist)
+    if pid == "C10":
+        cut_order_part(ctx, dist)
+    if pid == "C15":
+        relative_demux_part(ctx, dist)
     if pid in ("C03", "C04", "C09", "C10", "C11", "C15", "C16"):
         from . import pairprops
 
         pres = pairprops.paired_part(ctx, pid, max(60, n // 3), dist)
         results_paired = len(pres)
+        if pid == "C04":
+            minimal_report_part(ctx, results, pres, dist)
     ctx.coverage["rule"] = (
         "random valid single-end option sets inside the modelled fragment (focus: %s), 1-12 reads each with planted/edited/partial adapter copies, "
         "quality tails, N ends, poly-A tails, CASAVA and length= headers; implementation = cutadapt.cli.main in-process on the rebuilt working tree, "
@@ -833,6 +891,213 @@ def run(ctx, pid):
             k += 1
             ctx.sample({"argv": ent["impl"]["argv"][5:-1], "reads": ent["reads"][:2]})
     ctx.coverage["search_note"] = "oracle_%s was run on the implementation's outputs for all %d cases of this run" % (pid, len(results))
+
+
+def multicore_part(ctx, pid, results, dist):
+    """the figures this property is about are summed over worker processes when several cores are used: re-run some of the
+    cases on which the property is exercised with 2-3 cores and small chunks, and compare those figures with the one-core run
+    (which the correspondence above has compared with the model)"""
+    from . import runnerutil as R
+
+    picked = [e for e in results if not e.get("skip") and e["impl"]["exit"] == 0 and nontrivial_for(pid, e) and len(e["reads"]) >= 3]
+    if pid == "C20":
+        picked.sort(key=lambda e: -sum(1 for f, _ in e["cfg"].adapters if f == "-b"))
+    picked = picked[: (6 if ctx.quick else 40)]
+    d = os.path.join(buildimpl.scratch_root(), "mc-" + pid)
+    os.makedirs(d, exist_ok=True)
+    try:
+        for ent in picked:
+            cfg = ent["cfg"]
+            for f in os.listdir(d):
+                if os.path.isfile(os.path.join(d, f)):
+                    os.remove(os.path.join(d, f))
+            reads = ent["reads"] * (1 if len(ent["reads"]) >= 8 else 3)
+            reads = [("%s_%d%s" % (n.split(" ", 1)[0], i, (" " + n.split(" ", 1)[1]) if " " in n else ""), s_, q) for i, (n, s_, q) in enumerate(reads)]
+            S.write_input(d, reads, cfg.fasta)
+            argv = cfg.argv(d)
+            one = R.run_cli(argv, d, 1, trace=False)
+            rep1 = R.report_without_volatile(d)
+            multi = R.run_cli(argv, d, ctx.rng.choice([2, 3]), buffer_size=ctx.rng.choice([300, 600]), trace=False)
+            repn = R.report_without_volatile(d)
+            dist["multi-core re-runs"] = dist.get("multi-core re-runs", 0) + 1
+            if one["exit"] != 0 or multi["exit"] != 0 or rep1 is None or repn is None:
+                if "does not fit into buffer" in (multi.get("stderr") or ""):
+                    continue
+                if (one["exit"] == 0) != (multi["exit"] == 0):
+                    ctx.violation("multi-core run fails where the one-core run succeeds", {"cfg": cfg.to_json(), "reads": [list(r) for r in reads], "stderr": multi["stderr"][-300:]})
+                continue
+            if pid == "C16":
+                a, b = rep1["read_counts"].get("reverse_complemented"), repn["read_counts"].get("reverse_complemented")
+                what = "reads reported as reverse-complemented"
+            else:
+                a, b = rep1.get("adapters_read1"), repn.get("adapters_read1")
+                what = "per-adapter statistics"
+            ctx.count(("multicore", json.dumps(cfg.to_json(), sort_keys=True), len(reads)), True)
+            if a != b:
+                ctx.violation("several cores: %s differ from the one-core run" % what,
+                              {"cfg": cfg.to_json(), "reads": [list(r) for r in reads], "argv": argv[5:-1], "one_core": a, "several_cores": b,
+                               "why": "%s: one core %r, several cores %r" % (what, a, b)})
+    finally:
+        import shutil
+        shutil.rmtree(d, ignore_errors=True)
+
+
+def minimal_report_part(ctx, results, presults, dist):
+    """C04 names the minimal report: re-run some single-end and paired cases as a subprocess with --report=minimal (and --json)
+    and compare every figure of the one-line report with the JSON report of the same run"""
+    from . import runnerutil as R
+    from . import pairutil as P
+
+    k = 8 if ctx.quick else 60
+    jobs = [("single", e) for e in results if not e.get("skip") and e["impl"]["exit"] == 0][:k] + \
+           [("paired", e) for e in presults if not e.get("skip") and e["impl"]["exit"] == 0][:k]
+    d = os.path.join(buildimpl.scratch_root(), "minrep")
+    os.makedirs(d, exist_ok=True)
+    try:
+        for kind, ent in jobs:
+            for f in os.listdir(d):
+                if os.path.isfile(os.path.join(d, f)):
+                    os.remove(os.path.join(d, f))
+            cfg = ent["cfg"]
+            if kind == "single":
+                S.write_input(d, ent["reads"], cfg.fasta)
+                argv = cfg.argv(d)
+            else:
+                b, ext = cfg.base, cfg.base.ext()
+                if cfg.interleaved_in:
+                    P.write_records(os.path.join(d, "in.inter." + ext), [r for pr in ent["pairs"] for r in pr], b.fasta)
+                else:
+                    P.write_records(os.path.join(d, "in.1." + ext), [pr[0] for pr in ent["pairs"]], b.fasta)
+                    P.write_records(os.path.join(d, "in.2." + ext), [pr[1] for pr in ent["pairs"]], b.fasta)
+                argv = cfg.argv(d)
+            res = R.run_cli(["--report=minimal"] + argv, d, 1, trace=False)
+            dist["minimal report re-runs"] = dist.get("minimal report re-runs", 0) + 1
+            if res["exit"] != 0:
+                continue
+            rp = os.path.join(d, "report.json")
+            why = S.oracle_minimal_report({"stdout": res["stdout"], "report": json.load(open(rp)) if os.path.exists(rp) else None}, paired=(kind == "paired"))
+            ctx.count(("minrep", kind, json.dumps(cfg.to_json(), sort_keys=True)), True)
+            if why:
+                ctx.violation("minimal report: " + why.split(":")[1].split("=")[0].strip()[:40],
+                              {"kind": kind, "cfg": cfg.to_json(), "argv": [a for a in argv if not a.startswith("/var")], "why": why,
+                               "records": [list(r) for r in ent["reads"]] if kind == "single" else [[list(m) for m in pr] for pr in ent["pairs"]]})
+    finally:
+        import shutil
+        shutil.rmtree(d, ignore_errors=True)
+
+
+def relative_demux_part(ctx, dist):
+    """C15 with output templates given relative to the working directory, i.e. with the placeholder at the very beginning of the
+    path ({name}.fastq; {name}.1.fastq/{name}.2.fastq; {name1}-{name2}.1.fastq): every read must be in the file named after the
+    adapter of its last match (unknown if none), and no file may keep the placeholder in its name"""
+    from . import runnerutil as R
+
+    rng = ctx.rng
+    d = os.path.join(buildimpl.scratch_root(), "reldemux")
+    os.makedirs(d, exist_ok=True)
+    try:
+        for _ in range(ctx.size(6, 60)):
+            for f in os.listdir(d):
+                if os.path.isfile(os.path.join(d, f)):
+                    os.remove(os.path.join(d, f))
+            names = ["first", "second", "third"][: rng.choice([2, 3])]
+            seqs = []
+            while len(seqs) < len(names):
+                x = U.rand_seq(rng, 8, "ACGT")
+                if all(sum(a != b for a, b in zip(x, y)) >= 4 for y in seqs):
+                    seqs.append(x)
+            mode = rng.choice(["single", "paired", "combinatorial"])
+            recs, want = [], {}
+            for i in range(rng.choice([6, 12])):
+                k = rng.choice([None] + list(range(len(names))))
+                k2 = rng.choice([None] + list(range(len(names))))
+                r1 = ("" if k is None else seqs[k]) + U.rand_seq(rng, 14, "ACGT")
+                r2 = ("" if k2 is None else seqs[k2]) + U.rand_seq(rng, 14, "ACGT")
+                recs.append(("r%d" % i, r1, r2))
+                n1 = "unknown" if k is None else names[k]
+                n2 = "unknown" if k2 is None else names[k2]
+                key = n1 if mode != "combinatorial" else "%s-%s" % (n1, n2)
+                want.setdefault(key, []).append("r%d" % i)
+            with open(os.path.join(d, "in.1.fastq"), "w") as f:
+                for n, a, b in recs:
+                    f.write("@%s\n%s\n+\n%s\n" % (n, a, "I" * len(a)))
+            with open(os.path.join(d, "in.2.fastq"), "w") as f:
+                for n, a, b in recs:
+                    f.write("@%s\n%s\n+\n%s\n" % (n, b, "I" * len(b)))
+            argv = ["-e", "0"]
+            for nm, sq in zip(names, seqs):
+                argv += ["-g", "%s=^%s" % (nm, sq)]
+            if mode == "single":
+                argv += ["-o", "{name}.fastq", "in.1.fastq"]
+            elif mode == "paired":
+                argv += ["-o", "{name}.1.fastq", "-p", "{name}.2.fastq", "in.1.fastq", "in.2.fastq"]
+            else:
+                for nm, sq in zip(names, seqs):
+                    argv += ["-G", "%s=^%s" % (nm, sq)]
+                argv += ["-o", "{name1}-{name2}.1.fastq", "-p", "{name1}-{name2}.2.fastq", "in.1.fastq", "in.2.fastq"]
+            res = R.run_cli(argv, d, rng.choice([1, 1, 2]), trace=False)
+            dist["relative output templates"] = dist.get("relative output templates", 0) + 1
+            ctx.count(("reldemux", mode, tuple(recs)), True)
+            why = None
+            if res["exit"] != 0:
+                why = "cutadapt fails: " + res["stderr"].strip()[-200:]
+            else:
+                files = sorted(f for f in os.listdir(d) if f.endswith(".fastq") and not f.startswith("in."))
+                got = {}
+                for f in files:
+                    if "{" in f:
+                        why = "an output file keeps the placeholder in its name: %s" % f
+                        break
+                    stem = f[:-6]
+                    if mode != "single":
+                        if not stem.endswith(".1"):
+                            continue
+                        stem = stem[:-2]
+                    got[stem] = [l[1:].strip() for l in open(os.path.join(d, f)).read().split("\n")[0::4] if l.startswith("@")]
+                if why is None and {k: v for k, v in got.items() if v} != want:
+                    why = "reads per file %r, expected %r" % ({k: v for k, v in got.items() if v}, want)
+            if why:
+                ctx.violation("relative template: " + why.split(":")[0][:60], {"mode": mode, "argv": argv, "records": [list(r) for r in recs], "why": why, "relative": True})
+    finally:
+        import shutil
+        shutil.rmtree(d, ignore_errors=True)
+
+
+def cut_order_part(ctx, dist):
+    """C10, 'the -u values apply in the order given': -u twice (also -U), reads shorter than the two cuts together, and
+    --rename with {cut_prefix}/{cut_suffix}, which show which bases each cut removed; expectation = the cuts applied one after
+    the other in the order of the command line"""
+    rng = ctx.rng
+    with S.Scratch() as d:
+        for _ in range(ctx.size(25, 300)):
+            a = rng.choice([1, 2, 3, 5, -1, -2, -3, -5])
+            b = rng.choice([1, 2, 4, 6]) * (-1 if a > 0 else 1)   # the two values must address different ends
+            cfg = S.Cfg(cuts=(a, b), rename="{id} p={cut_prefix} s={cut_suffix}", fasta=rng.random() < 0.3)
+            reads = []
+            for i in range(rng.choice([2, 5])):
+                seq = U.rand_seq(rng, rng.choice([0, 1, 2, 3, 4, 5, 7, 12]), "ACGT")
+                reads.append(("r%d" % i, seq, None if cfg.fasta else "".join(chr(33 + rng.randint(2, 40)) for _ in seq)))
+            res = S.run_impl(cfg, reads, d)
+            dist["-u twice with {cut_prefix}/{cut_suffix}"] = dist.get("-u twice with {cut_prefix}/{cut_suffix}", 0) + 1
+            ctx.count(("cutorder", a, b, tuple(reads)), True)
+            if res["exit"] != 0:
+                ctx.violation("cut order: implementation fails", {"argv": res["argv"][5:-1], "reads": [list(r) for r in reads], "error": res["error"]})
+                continue
+            got = {n.split(" ")[0]: (n, sq) for n, sq, _ in res["files"].get(0, [])}
+            for name, seq, _ in reads:
+                pre = suf = ""
+                cur = seq
+                for c in (a, b):
+                    if c > 0:
+                        pre, cur = cur[:c], cur[c:]
+                    elif c < 0:
+                        suf, cur = cur[c:], cur[:c]
+                want = ("%s p=%s s=%s" % (name, pre, suf), cur)
+                if got.get(name) != want:
+                    ctx.violation("the -u values are not applied in the order given",
+                                  {"argv": res["argv"][5:-1], "reads": [list(r) for r in reads], "observed": list(got.get(name) or ()), "expected": list(want),
+                                   "why": "-u %d -u %d on %r: got %r, cuts applied in the given order give %r" % (a, b, seq, got.get(name), want)})
+                    break
 
 
 def signature(pid, why):
